@@ -14,7 +14,7 @@ import (
 const HooksOn = true
 
 var (
-	hookPerturb atomic.Bool  // delay some workers between finishing a job and posting its result
+	hookPerturb atomic.Bool // delay some workers between finishing a job and posting its result
 	hookTick    atomic.Uint64
 	hookSeen    atomic.Int64 // results the Scheduler Loop has received
 	hookSettled atomic.Int64 // value of hookSeen when the loop last went on (next iteration or exit)
